@@ -11,6 +11,7 @@ from common import VERIF, dec_float, enc_bool, enc_float, enc_list, errname
 
 PROP = "C03"
 THEOREMS = [
+    "Verif.C03.lineRangesInclFixed_spec",
     "Verif.C03.couldSumOverflow_length",
     "Verif.C03.tsMean_no_overflow",
     "Verif.C03.tsMean_mem",
